@@ -11,8 +11,8 @@ const SPEC: Spec = Spec {
         "refint (schoolbook add/sub on u64 limbs) is trusted; it is cross-checked against Python int on a transcript slice",
         "x86_64 only: the 32-bit digit build and the non-x86 adc/sbb fallbacks are not exercised",
     ],
-    bounds_quick: "S1 Dense(S5,4)^2; S2 Runs(S5,2,12)^2; S3 block-boundary lengths {4,5,6,9,10,11,14,15,16,20,21}x{+0,+1,+5,+6} with Runs(S5,2,.); S4 dense LCG digit strings, all length pairs <= 24 x 3x3 family members; S5 scalar forms: Dense(S5,4)+Runs(S5,2,8) x 12 scalars (u32/u64/u128, +-i64/i128)",
-    bounds_thorough: "S1 Dense(S5,4)^2; S2 Runs(S5,3,17)^2 (panicking forms on the Runs(S5,3,10) sub-square); S3 as quick with Runs(S5,3,.) for the shorter operand; S4 length pairs <= 48 x 7x7 family members",
+    bounds_quick: "S1 Dense(S5,4)^2; S2 Runs(S5,2,12)^2; S3 block-boundary lengths {4,5,6,9,10,11,14,15,16,20,21}x{+0,+1,+5,+6} with Runs(S5,2,.); S4 dense LCG digit strings, all length pairs <= 24 x 3x3 family members; S5 scalar forms: Dense(S5,4)+Runs(S5,2,8) x 12 scalars (u32/u64/u128, +-i64/i128); S6 (Dense(S5,3) + lengths 4..12 x 3 shapes)^2 through the in-place / owning forms on operands with spare buffer capacity",
+    bounds_thorough: "S1 Dense(S5,4)^2; S2 Runs(S5,3,17)^2 (panicking forms on the Runs(S5,3,10) sub-square); S3 as quick with Runs(S5,3,.) for the shorter operand; S4 length pairs <= 48 x 7x7 family members; S5; S6 with lengths up to 24",
     hang_secs: 120,
     probes: Some(probes),
     max_workers: 16,
@@ -244,6 +244,93 @@ fn body(ctx: &mut Ctx) {
                 }
                 ctx.sample(|| format!("dense LCG digits: len(a)={} len(b)={} x 3x3 family members, both orders", la, lb));
             }
+        }
+    }
+    // S6: the owning / in-place forms on operands whose buffer has spare capacity (results are written into a reused buffer)
+    if ctx.space("S6") {
+        let mut ops: Vec<Vec<u64>> = alpha::dense(&alpha::SIGMA5, 3);
+        for l in 4..=tier.pick(12usize, 24usize) {
+            ops.push(alpha::lcg_digits(l, 3));
+            ops.push(vec![alpha::M; l]);
+            let mut v = vec![0u64; l];
+            v[l - 1] = 1;
+            ops.push(v);
+        }
+        let ops: Vec<Op> = ops.iter().map(|d| mk(d)).collect();
+        for (i, a) in ops.iter().enumerate() {
+            if !ctx.mine(i as u64) {
+                continue;
+            }
+            for (j, b) in ops.iter().enumerate() {
+                ctx.inner(j as u64);
+                ctx.case();
+                let need = a.d.len().max(b.d.len()) + 3;
+                let sum = a.n.add(&b.n);
+                let diff = a.n.sub(&b.n);
+                let (sa, capa) = with_slack(&a.u, need);
+                let (sb, capb) = with_slack(&b.u, need);
+                if capa >= need || capb >= need {
+                    ctx.nontrivial(1);
+                    ctx.goal("operand with spare capacity for the whole result");
+                }
+                let args = || vec![format!("a={}", a.n.to_hex()), format!("b={}", b.n.to_hex()), format!("capacity a={} b={}", capa, capb)];
+                let r = call(ctx, || {
+                    let mut x = with_slack(&a.u, need).0;
+                    x += &b.u;
+                    x
+                });
+                expect_nat(ctx, "BigUint slack a+=&b", &args, r, &sum);
+                let r = call(ctx, || with_slack(&a.u, need).0 + &b.u);
+                expect_nat(ctx, "BigUint slack a+&b", &args, r, &sum);
+                let r = call(ctx, || &a.u + with_slack(&b.u, need).0);
+                expect_nat(ctx, "BigUint &a+slack b", &args, r, &sum);
+                let r = call(ctx, || with_slack(&a.u, need).0 + with_slack(&b.u, need).0);
+                expect_nat(ctx, "BigUint slack a+slack b", &args, r, &sum);
+                let r = call(ctx, || {
+                    let mut t = -BigInt::from(with_slack(&a.u, need).0);
+                    t -= BigInt::from(sb.clone());
+                    t
+                });
+                expect_int(ctx, "BigInt slack -a-=b", &args, r, &Int::new(!sum.is_zero(), sum.clone()));
+                let r = call(ctx, || {
+                    let mut t = BigInt::from(with_slack(&a.u, need).0);
+                    t += &-BigInt::from(b.u.clone());
+                    t
+                });
+                let idiff = Int::from_nat(a.n.clone()).sub(&Int::from_nat(b.n.clone()));
+                expect_int(ctx, "BigInt slack a+=&-b", &args, r, &idiff);
+                let r = call(ctx, || &-BigInt::from(b.u.clone()) + BigInt::from(sa.clone()));
+                expect_int(ctx, "BigInt &-b+slack a", &args, r, &idiff);
+                match &diff {
+                    Some(d) => {
+                        let r = call(ctx, || {
+                            let mut x = with_slack(&a.u, need).0;
+                            x -= &b.u;
+                            x
+                        });
+                        expect_nat(ctx, "BigUint slack a-=&b", &args, r, d);
+                        let r = call(ctx, || with_slack(&a.u, need).0 - &b.u);
+                        expect_nat(ctx, "BigUint slack a-&b", &args, r, d);
+                        let r = call(ctx, || &a.u - with_slack(&b.u, need).0);
+                        expect_nat(ctx, "BigUint &a-slack b", &args, r, d);
+                        let r = call(ctx, || with_slack(&a.u, need).0 - with_slack(&b.u, need).0);
+                        expect_nat(ctx, "BigUint slack a-slack b", &args, r, d);
+                    }
+                    None => {
+                        if a.d.len() <= 6 {
+                            let r = call(ctx, || {
+                                let mut x = with_slack(&a.u, need).0;
+                                x -= &b.u;
+                                x
+                            });
+                            expect_panic(ctx, "BigUint slack a-=&b (a<b)", &args, r);
+                            let r = call(ctx, || &a.u - with_slack(&b.u, need).0);
+                            expect_panic(ctx, "BigUint &a-slack b (a<b)", &args, r);
+                        }
+                    }
+                }
+            }
+            ctx.sample(|| format!("a={} (and every b) with spare-capacity buffers: += -= and the owning + - forms of BigUint and BigInt", a.n.to_hex()));
         }
     }
     // S5: scalar addends / subtrahends (u32, u64, u128 on BigUint; i64, i128 on BigInt), every form
